@@ -418,12 +418,15 @@ class PoolByteStream:
     def close(self) -> None:
         if not self._closed:
             self._closed = True
-            with ShieldCancellation():
-                if hasattr(self._stream, "close"):
-                    self._stream.close()
+            try:
+                with ShieldCancellation():
+                    if hasattr(self._stream, "close"):
+                        self._stream.close()
+            finally:
+                # Always release the request, even if closing the response
+                # was interrupted. Eg. by an asyncio task cancellation.
+                with self._pool._optional_thread_lock:
+                    self._pool._requests.remove(self._pool_request)
+                    closing = self._pool._assign_requests_to_connections()
 
-            with self._pool._optional_thread_lock:
-                self._pool._requests.remove(self._pool_request)
-                closing = self._pool._assign_requests_to_connections()
-
-            self._pool._close_connections(closing)
+                self._pool._close_connections(closing)
